@@ -30,6 +30,8 @@ def run(c):
         "random draws and Go map order are inputs of the model: the harness derives a witness (rounds, evicted keys, enumeration) from the "
         "observed pre/post state; the model must reproduce the observed row from it (an illegal eviction or fold cannot be reproduced)",
         "host tags, sum of squares, t-digest and HLL parts of a MultiValue are not modelled; `1 << sampleFactorLog2` does not overflow",
+        "determinism: the event sequence of a case (api, capacity, key, count, event) is a function of the seed alone; which key a resample "
+        "draw hits depends on Go's randomised map iteration inside the code under test, so witnesses/observations of two runs may differ",
         "the resample loop is modelled with fuel: termination is probabilistic (see theorems resampleLoop_can_terminate / resampleLoop_zero_draws_stuck)",
     ]
     binary = c.go_build(HARNESS)
@@ -39,7 +41,7 @@ def run(c):
     if binary and drv:
         # thorough: 6 batches with seeds derived from VERIF_SEED (keeps each output stream at ~60 MB)
         for k in range(c.n(1, 6)):
-            rc, out = c.go_run(binary, [f"-n={c.n(1500, 4000)}", f"-seed={c.seed + 7919 * k}"])
+            rc, out = c.go_run(binary, [f"-n={c.n(800, 4000)}", f"-seed={c.seed + 7919 * k}"])
             c.harness_ok(rc, out, "verif-c07")
             c.correspond(out, drv, label=f"batch{k}")
             del out
@@ -67,7 +69,7 @@ META = {
              "The model is tied to the code by replaying each generated history on the real row and on the compiled model, "
              "comparing the touched aggregate, the tail, the size, the sample factor and the evicted set after every event and the whole "
              "row after finish."),
-    "note": ("Trusted: Lean kernel; the reading of the property; correspondence on generated histories (quick 1500, thorough 6x4000 cases) in the "
+    "note": ("Trusted: Lean kernel; the reading of the property; correspondence on generated histories (quick 800, thorough 6x4000 cases) in the "
              "exact integer domain of float64; witnesses for randomness/map order are derived from observed states (a draw that is "
              "consistent with the outcome is assumed, the actual sfc64 stream is not replayed except for the redirect test). "
              "Not modelled: host tags, sum of squares, t-digest, HLL, int overflow of 1<<sampleFactorLog2, non-finite counts. "
